@@ -5,7 +5,7 @@ fresh buffer / unknown = free Boolean), C-contiguity, ghost flags, may-write set
 """
 import z3
 from vt.e1.values import is_tag
-from vt.e1.values import (SArr, SList, SNum, SNone, NONE, SMaxRank, SInf, Unsupported, fresh, zi, zb, as_conc, is_conc_int)
+from vt.e1.values import (SArr, SList, SNum, SNone, NONE, SOpt, SMaxRank, SInf, Unsupported, fresh, zi, zb, as_conc, is_conc_int)
 
 
 def prod(terms):
@@ -38,6 +38,12 @@ def _clamp_slice(lo, hi, n):
 
 def need_rank(ex, state, arr, line):
     """an array taken from a list has a symbolic rank: using it as an n-d array needs rank == number of tracked dims"""
+    if isinstance(arr, SOpt):
+        ex.ctx.oblige(state, 'not-None', line, arr.defined, 'environment / stack entry used before it is set')
+        arr = arr.val
+    if isinstance(arr, SNone):
+        ex.ctx.oblige(state, 'not-None', line, False, 'None used as an array')
+        raise Unsupported('None used as an array at line %d' % line)
     if isinstance(arr, SArr) and not is_conc_int(arr.ndim):
         ex.ctx.oblige(state, 'array-rank', line, zi(arr.ndim) == len(arr.shape), 'array rank is not %d' % len(arr.shape))
         return arr.with_(ndim=len(arr.shape))
